@@ -75,13 +75,20 @@ def gen_subscript(rng, var, cfg, depth_vars):
         return binop("+", ref(var), ref(pick(rng, D_SCALARS)))
     if kind == "other" and len(depth_vars) > 1:
         return ref(pick(rng, [v for v in depth_vars if v != var]))
+    if kind in ("i+j", "i-j") and len(depth_vars) > 1:
+        # two loop variables in one subscript: different (i, j) pairs reach
+        # the same element
+        other = pick(rng, [v for v in depth_vars if v != var])
+        if kind == "i+j":
+            return binop("+", ref(var), ref(other))
+        return binop("+", binop("-", ref(var), ref(other)), ref("n"))
     return ref(var)
 
 
 SUBS_PLAIN = [(6, "i"), (3, "i+c"), (1, "c*i"), (1, "const"), (1, "other")]
 SUBS_WILD = [(4, "i"), (3, "i+c"), (2, "c*i"), (1, "c*i+c"), (2, "i/c"),
              (2, "mod"), (2, "n-i"), (2, "idx"), (1, "const"), (2, "scalar"),
-             (1, "other")]
+             (1, "other"), (1.5, "i+j"), (1, "i-j")]
 SUBS_SAFE = [(8, "i"), (1, "c*i"), (1, "other")]
 
 
